@@ -10,6 +10,7 @@ Local Open Scope Z_scope.
 Section Sim.
   Variable accepts : str -> bool.
   Variable delivers : str -> str -> bool.
+  Variable over : str -> str -> bool.
   Variable c : cfg.
 
   Definition sim (s : st) (m : mode) (p : phase) : Prop :=
@@ -24,14 +25,19 @@ Section Sim.
   Lemma sim0 : sim st0 MCmd phase0.
   Proof. repeat split. Qed.
 
-  (** the per-recipient replies complete the transaction in the checker *)
+  (** the per-recipient replies (delivery result, or 552 for an over-quota
+      recipient, each in its own position) complete the transaction in the checker *)
   Lemma deliver_run maxr d : forall rs p,
     rs <> [] -> awaiting p = Some rs ->
-    dialog_run maxr p (map (fun r => Deliver r d (delivers r d)) rs) = Some (end_tx p).
+    dialog_run maxr p (map (fun r => if over r d then Refuse r 552
+                                     else Deliver r d (delivers r d)) rs) = Some (end_tx p).
   Proof.
     induction rs as [|r rs IH]; intros p N A; [congruence|].
-    cbn [map dialog_run]. unfold dialog_step. rewrite A. rewrite str_eqb_refl.
-    destruct rs as [|r' rs'].
+    cbn [map dialog_run].
+    assert (E : dialog_step maxr p (if over r d then Refuse r 552 else Deliver r d (delivers r d))
+                = Some (match rs with [] => end_tx p | _ => await p rs end)).
+    { unfold dialog_step. rewrite A. destruct (over r d); now rewrite str_eqb_refl. }
+    rewrite E. destruct rs as [|r' rs'].
     - reflexivity.
     - rewrite (IH (await p (r' :: rs'))); [reflexivity|discriminate|reflexivity].
   Qed.
@@ -87,7 +93,7 @@ Section Sim.
 
   Lemma step_sim s m p line s' m' evs q :
     sim s m p ->
-    step accepts delivers c s m line = (s', m', evs, q) ->
+    step accepts delivers over c s m line = (s', m', evs, q) ->
     exists p', dialog_run (max_rcpts c) p evs = Some p' /\ sim s' m' p'.
   Proof.
     intros S H. destruct m as [|d]; cbn [step] in H.
@@ -116,24 +122,24 @@ Section Sim.
 
   Lemma run_sim ls : forall s m p,
     sim s m p ->
-    exists p', dialog_run (max_rcpts c) p (fst (run accepts delivers c s m ls)) = Some p'.
+    exists p', dialog_run (max_rcpts c) p (fst (run accepts delivers over c s m ls)) = Some p'.
   Proof.
     induction ls as [|l ls IH]; intros s m p S; cbn [run] in *.
     - destruct m; cbn [fst]; [exists p; reflexivity|].
       destruct S as (_ & _ & _ & W & NE). exists p. cbn. unfold dialog_step. rewrite W.
       destruct (rcpts s); [congruence|reflexivity].
-    - destruct (step accepts delivers c s m l) as [[[s1 m1] e1] q] eqn:Hs.
+    - destruct (step accepts delivers over c s m l) as [[[s1 m1] e1] q] eqn:Hs.
       destruct (step_sim _ _ _ _ _ _ _ _ S Hs) as (p' & R & S').
       destruct q.
       + cbn [fst]. eauto.
-      + destruct (run accepts delivers c s1 m1 ls) as [e r] eqn:Hr. cbn [fst] in *.
+      + destruct (run accepts delivers over c s1 m1 ls) as [e r] eqn:Hr. cbn [fst] in *.
         specialize (IH s1 m1 p' S'). rewrite Hr in IH. cbn [fst] in IH.
         destruct IH as (p'' & R'). exists p''. rewrite dialog_run_app, R. exact R'.
   Qed.
 
   (** (a)(c)(d)(e) on the reply trace, for every stream of lines *)
   Theorem dialog_ok_run ls :
-    dialog_ok (max_rcpts c) (fst (run accepts delivers c st0 MCmd ls)) = true.
+    dialog_ok (max_rcpts c) (fst (run accepts delivers over c st0 MCmd ls)) = true.
   Proof.
     unfold dialog_ok.
     destruct (run_sim ls st0 MCmd phase0 sim0) as (p' & ->). reflexivity.
@@ -143,7 +149,7 @@ Section Sim.
   Lemma step_rcpts_bound s m line s' m' evs q :
     0 <= max_rcpts c ->
     Z.of_nat (length (rcpts s)) <= max_rcpts c ->
-    step accepts delivers c s m line = (s', m', evs, q) ->
+    step accepts delivers over c s m line = (s', m', evs, q) ->
     Z.of_nat (length (rcpts s')) <= max_rcpts c.
   Proof.
     intros M B H. destruct m as [|d]; cbn [step] in H.
@@ -165,10 +171,10 @@ Section Sim.
   Theorem rcpts_bound ls : forall s m,
     0 <= max_rcpts c ->
     Z.of_nat (length (rcpts s)) <= max_rcpts c ->
-    Z.of_nat (length (rcpts (fst (run_state accepts delivers c s m ls)))) <= max_rcpts c.
+    Z.of_nat (length (rcpts (fst (run_state accepts delivers over c s m ls)))) <= max_rcpts c.
   Proof.
     induction ls as [|l ls IH]; intros s m M B; cbn [run_state]; [exact B|].
-    destruct (step accepts delivers c s m l) as [[[s1 m1] e1] q] eqn:Hs.
+    destruct (step accepts delivers over c s m l) as [[[s1 m1] e1] q] eqn:Hs.
     pose proof (step_rcpts_bound _ _ _ _ _ _ _ M B Hs).
     destruct q; [exact H|apply IH; auto].
   Qed.
